@@ -42,15 +42,17 @@ pub async fn on_document_selection_range_handle(
 
         let description = token.parent().and_then(LuaDocDescription::cast);
         if let Some(description) = description {
-            add_detail_ranges(&semantic_model, description, offset, &mut ranges);
+            let mut detail_ranges = Vec::new();
+            add_detail_ranges(&semantic_model, description, offset, &mut detail_ranges);
+            for range in detail_ranges {
+                push_growing_range(&mut ranges, range);
+            }
         } else {
-            let range = token.text_range();
-            ranges.push(range);
+            push_growing_range(&mut ranges, token.text_range());
         }
 
         for ancestor in token.parent_ancestors() {
-            let range = ancestor.text_range();
-            ranges.push(range);
+            push_growing_range(&mut ranges, ancestor.text_range());
         }
 
         let mut parent: Option<Box<SelectionRange>> = None;
@@ -68,6 +70,18 @@ pub async fn on_document_selection_range_handle(
     }
 
     Some(result)
+}
+
+/// Selection ranges must strictly grow outward: skip a range that equals the previous one
+/// (a node with a single child) or that does not contain it.
+fn push_growing_range(ranges: &mut Vec<TextRange>, range: TextRange) {
+    if let Some(last) = ranges.last()
+        && (range == *last || !range.contains_range(*last))
+    {
+        return;
+    }
+
+    ranges.push(range);
 }
 
 fn add_detail_ranges(
